@@ -2,7 +2,7 @@
 C05 — tournament selection keeps the fittest and builds a well-formed generation.
 
 Correspondence: the real `TournamentSelection.select` against `Model/Tournament.lean`.
-Two populations streams go through the *same* real `select`:
+Two population streams go through the *same* real `select`:
 
   * "real": lightweight real agents (DQN, 3-dim Box / Discrete(2), one hidden layer of 4) — this
     is the stream that exercises the real `clone()` (faithful, independent copies);
@@ -318,12 +318,14 @@ def canonical(cfg, pop, snaps, elite, new) -> str:
     return " ; ".join(parts)
 
 
-def model_lines(cfg, snaps, calls) -> list[str]:
+def model_lines(cfg, snaps, calls, rank=None) -> list[str]:
     k, e, n, w = cfg
     lines = [f"tourn cfg {k} {1 if e else 0} {n} {w}"]
     for s in snaps:
         fs = " ".join(show_key(Fraction(x)) for x in s["fitness"])
         lines.append(f"tourn agent {s['index']} {fs}".rstrip())
+    if rank is not None:
+        lines.append("tourn ranking " + " ".join(map(str, rank)))
     lines.append(("tourn select " + " ".join(str(d) for c in calls for d in c)).rstrip())
     return lines
 
@@ -376,6 +378,25 @@ def gen_case(rng: random.Random, kind: str, tier: str, chain: bool = False) -> d
             "gens": gens, "pool": [str(v) for v in pool]}
 
 
+def implementation_rank(ts, pop):
+    """the rank array and max_id the implementation computes (`_elitism`), so that the model can test
+    numpy's actual ranking against the relational specification `IsRanking` the theorems assume.
+    Skipped silently if a refactoring removed the helper."""
+    fn = getattr(ts, "_elitism", None)
+    if fn is None:
+        return None, []
+    try:
+        with warnings.catch_warnings():
+            warnings.simplefilter("ignore")
+            _, rank, max_id = fn(pop)
+        rank = [int(x) for x in rank]
+        if len(rank) != len(pop) or any(x < 0 for x in rank):
+            return None, []
+        return rank, [f"1 {int(max_id)}"]
+    except Exception:
+        return None, []
+
+
 def run_case(case: dict, pool: Pool):
     """runs all generations of a case on the real implementation.
     returns (impl_lines, model_op_lines, problems, tags)"""
@@ -420,9 +441,10 @@ def run_case(case: dict, pool: Pool):
     if case["gens"] > 1:
         tags.append("chain")
     for g in range(case["gens"]):
+        rank, rank_line = implementation_rank(ts, pop)
         snaps, calls, elite, new = select_once(ts, pop, case["seed"] + g)
-        impl += ["ok"] * (1 + len(snaps)) + [canonical(cfg, pop, snaps, elite, new)]
-        ops += model_lines(cfg, snaps, calls)
+        impl += ["ok"] * (1 + len(snaps)) + rank_line + [canonical(cfg, pop, snaps, elite, new)]
+        ops += model_lines(cfg, snaps, calls, rank)
         p, t = oracle(cfg, pop, snaps, calls, elite, new)
         problems += [f"generation {g}: {x}" for x in p] if case["gens"] > 1 else p
         tags += t
@@ -439,6 +461,19 @@ def run_case(case: dict, pool: Pool):
     return impl, ops, problems, tags
 
 
+def driver_run(chk: Check, lines: list[str]) -> list[str]:
+    """the lake workspace is shared: another build may be relinking the driver this very second"""
+    import time
+    for attempt in range(6):
+        try:
+            return chk.driver.run(lines)
+        except InfraError as ex:
+            if "missing" not in str(ex) or attempt == 5:
+                raise
+            time.sleep(5)
+    raise InfraError("unreachable")
+
+
 def evaluate(chk: Check, cases: list[dict], pool: Pool):
     """impl for every case, one driver call, per case (diff, problems, tags, impl, model)"""
     runs = []
@@ -450,7 +485,7 @@ def evaluate(chk: Check, cases: list[dict], pool: Pool):
     lines = ["reset"]
     for impl, ops, _, _ in runs:
         lines += ops
-    out = chk.driver.run(lines)[1:] if len(lines) > 1 else []
+    out = driver_run(chk, lines)[1:] if len(lines) > 1 else []
     chk.corr["model_lines"] += len(out)
     res, pos = [], 0
     for impl, ops, problems, tags in runs:
@@ -590,6 +625,9 @@ def run(chk: Check) -> None:
     ndiff = {"real": 0, "stub": 0}
     count = {"real": 0, "stub": 0}
     for start in range(0, len(cases), 200):
+        if len(chk.violations) >= 5:
+            chk.notes.append(f"stopped after {len(chk.violations)} violations; {len(cases) - start} cases not run")
+            break
         batch = cases[start:start + 200]
         for case, (diff, problems, tags, impl, model) in zip(batch, evaluate(chk, batch, pool)):
             count[case["kind"]] += 1
@@ -601,7 +639,11 @@ def run(chk: Check) -> None:
             if diff is None and not problems:
                 continue
             ndiff[case["kind"]] += diff is not None
-            report(chk, case, pool, diff, problems, impl, model)
+            if len(chk.violations) < 5:
+                report(chk, case, pool, diff, problems, impl, model)
+            else:       # already five shrunk replays: count, do not shrink again
+                chk.violation(problems[0] if problems else f"model/implementation differ at line {diff}", None,
+                              no_input=not problems)
     chk.suite("select-real-agents", count["real"], ndiff["real"])
     chk.suite("select-duck-typed-agents", count["stub"], ndiff["stub"])
     probe_encoder_activation(chk)
